@@ -41,8 +41,9 @@ def replay(ctx):
         for patch in seeds:
             name = os.path.basename(os.path.dirname(patch))
             repo = os.path.join(scratch, "repo")
-            shutil.rmtree(repo, ignore_errors=True)
-            subprocess.run(["rsync", "-a", "--exclude", "/target", "--exclude", "/.git", facts.REPO + "/", repo + "/"], check=True)
+            # no -t: a file restored to its original content must get a fresh mtime, or cargo keeps the unit built from the
+            # previous seed's patched source (and its facts)
+            subprocess.run(["rsync", "-rlpgoD", "--checksum", "--delete", "--exclude", "/target", "--exclude", "/.git", facts.REPO + "/", repo + "/"], check=True)
             ap = subprocess.run(["git", "apply", "--unsafe-paths", "--directory=" + repo, patch], cwd="/", capture_output=True, text=True)
             if ap.returncode != 0:
                 ap = subprocess.run(["patch", "-p1", "-s", "-f", "-i", patch], cwd=repo, capture_output=True, text=True)
